@@ -118,6 +118,7 @@ type Gen struct {
 	assertsSeen    map[string]bool
 	leafT      map[string]types.Type // heap name -> Go type of a cell
 	leafDepth  map[string]int        // heap name -> number of indices down to a cell
+	leafKeySort map[string]string    // map value heaps: sort of the key index
 }
 
 type ghostDef struct {
@@ -257,9 +258,12 @@ func (g *Gen) heapRange(constName, heapName string) {
 	var binders, idx []string
 	for i := 0; i < depth; i++ {
 		v := fmt.Sprintf("i%d", i)
-		if i == 0 {
+		switch {
+		case i == 0:
 			binders = append(binders, "("+v+" Int)")
-		} else {
+		case g.leafKeySort[heapName] != "":
+			binders = append(binders, "("+v+" "+g.leafKeySort[heapName]+")")
+		default:
 			binders = append(binders, "("+v+" "+idxS+")")
 		}
 		idx = append(idx, v)
@@ -288,6 +292,18 @@ func (g *Gen) noteLeaf(heapName string, l Leaf, nidx int) {
 		return
 	}
 	g.leafDepth[heapName] = nidx
+}
+
+// noteLeafKey: like noteLeaf for the value heap of a map type (second index: the key, of sort ks).
+func (g *Gen) noteLeafKey(heapName string, l Leaf, ks string) {
+	if _, ok := g.leafT[heapName]; ok {
+		return
+	}
+	g.noteLeaf(heapName, l, 2)
+	if g.leafKeySort == nil {
+		g.leafKeySort = map[string]string{}
+	}
+	g.leafKeySort[heapName] = ks
 }
 
 func isRefLike(t types.Type) bool {
